@@ -303,6 +303,49 @@ def run_option_histories(args):
     return p
 
 
+def run_cli_part(_):
+    """`pybufrkit query '%[k.]name' f1 f2 f3` (one decoder and one invocation for messages of editions 2, 3 and 4, in
+    every order): for each file its name, then the value of the first section holding the name (None if there is none)"""
+    import itertools
+    from mc.engine.cli import run_cli
+    p = Partial()
+    items = pool()
+    pick = [next(x for x in items if x[2].edition == ed and (x[2].sec2 is not None) == s2) for ed, s2 in ((2, False), (3, True), (4, False))]
+    scratch = os.environ.get('VERIF_SCRATCH') or '/dev/shm'
+    files = []
+    try:
+        for k, it in enumerate(pick):
+            fn = os.path.join(scratch, 'c17_%d_%d.bufr' % (os.getpid(), k))
+            with open(fn, 'wb') as f:
+                f.write(it[1])
+            files.append(fn)
+        names = ['edition', 'length', 'originating_subcentre', 'master_table_number', 'data_category', 'n_subsets', 'section_length',
+                 'local_bits', 'is_compressed', 'unexpanded_descriptors', 'year', 'update_sequence_number', 'nosuch']
+        for order in itertools.permutations(range(3)):
+            for name in names:
+                for index in (None, 1, 2, 3):
+                    if index is not None and order != (0, 1, 2) and name not in ('section_length', 'originating_subcentre'):
+                        continue
+                    expr = '%' + ('%d.' % index if index is not None else '') + name
+                    out, err, exc, code = run_cli(['query', expr] + [files[i] for i in order])
+                    p.n['exec'] += 1
+                    want = []
+                    for i in order:
+                        want.append(files[i])
+                        want.append(str(expected_value(pick[i][3], name, index, True)[1]))
+                    p.outcome((name, index is None, order == (0, 1, 2)))
+                    case = {'expr': expr, 'order': list(order)}
+                    if exc is not None or code not in (None, 0):
+                        p.violation('cli-query-fails', case, 'ended with %r / exit %r: %s' % (exc, code, err[-200:]))
+                    elif out.split('\n')[:-1] != want:
+                        p.violation('cli-query-output|%s' % name, case, 'printed %r, expected %r' % (out.split('\n')[:-1], want))
+    finally:
+        for fn in files:
+            if os.path.exists(fn):
+                os.remove(fn)
+    return p
+
+
 def extra_pool():
     """the C04 structures (every data length 0..32 x section-3 size x edition x section-2 variant)"""
     from mc.checks import c04
@@ -353,6 +396,9 @@ def run_corpus(msgs):
 
 
 def replay(part, case):
+    if part == 'cli':
+        p = run_cli_part(None)
+        return [{'sig': v['sig'], 'detail': v['detail']} for v in p.viol if v['case'] == case]
     if part == 'infoonly-option-histories':
         items = pool()
         p = run_option_histories(([x for x in items if x[0] == case['message']], items))
@@ -412,6 +458,9 @@ def main(tier, seed):
         p = merge_all(run_shards(run_query, split(extra, 64)))
         p.n['nodes'], p.n['edges'] = p.n['exec'] + 1, p.n['exec']
         rep.add_part('query-c04pool', p, bounds={'messages': len(extra)})
+    p = run_cli_part(None)
+    p.n['nodes'], p.n['edges'] = p.n['exec'] + 1, p.n['exec']
+    rep.add_part('cli', p, bounds={'invocations': p.n['exec'], 'files_per_invocation': 3, 'orders': 6})
     from mc.gen import corpus
     msgs = list(corpus.messages(max_bytes=6000 if tier == 'quick' else None))
     p = merge_all(run_shards(run_corpus, split(msgs, 64)))
